@@ -190,7 +190,7 @@ def one(args):
                     "resize": 1 if "resize_inode" in feats else 0, "sparse": 1 if "sparse_super" in feats else 0,
                     "ss2": 1 if "sparse_super2" in feats else 0,
                     "metabg": 1 if "meta_bg" in feats else 0, "is64": 1 if "64bit" in feats else 0, "ninodes": c["ninodes"]},
-            "obs": {"blocks": 0, "first": 0, "bpg": 0, "ipg": 0, "itb": 0, "rsv": 0, "inodes": 0, "gdc": 0, "metabg": 0, "backups": [], "features": []},
+            "obs": {"blocks": 0, "first": 0, "bpg": 0, "ipg": 0, "itb": 0, "rsv": 0, "inodes": 0, "gdc": 0, "metabg": 0, "backups": [], "features": [], "backups_badcsum": []},
             "cmd": " ".join(opts + [str(c["blocks"])]), "extra": c.get("extra", ""), "c": c}
     # -n first, on an existing zero image, under the recorder
     fresh()
@@ -222,6 +222,7 @@ def one(args):
         line["obs"] = {"blocks": sb["blocks"], "first": sb["first"], "bpg": sb["bpg"], "ipg": sb["ipg"], "itb": sb["itb"], "rsv": sb["rsv"],
                        "inodes": sb["inodes"], "gdc": sb["gdc"], "metabg": 1 if "meta_bg" in sb["features"] else 0,
                        "backups": [0] + sbparse.backup_groups(img, sb, offset), "features": sb["features"]}
+        line["obs"]["backups_badcsum"] = sbparse.bad_backup_csums(img, sb, line["obs"]["backups"], offset)
     r2, out, err = sh([fsck, "-fn", img + ("?offset=%d" % offset if offset else "")], env=env, timeout=120)
     line["offset"] = offset
     line["fsck"] = r2
